@@ -1422,10 +1422,31 @@ func (x *Exec) makeIface(st *State, v Value, typ types.Type) *Term {
 	}
 	t := x.firstClass(v, typ)
 	b := UF(boxName(typ), "Int", t)
-	// injectivity, as a ground instance
-	x.assume(st, Eq(UF("un"+boxName(typ), t.Sort, b), t))
-	x.assume(st, Ge(b, Int(0)))
+	boxSorts[boxName(typ)] = t.Sort
+	if !t.hasBV {
+		// injectivity, as a ground instance (terms under a quantifier get it from the axiom added in buildVC)
+		x.assume(st, Eq(UF("un"+boxName(typ), t.Sort, b), t))
+		x.assume(st, Ge(b, Int(0)))
+	}
 	return Mk(sortIface, tag, b)
+}
+
+var boxSorts = map[string]string{}
+
+// boxAxioms: boxing is injective and yields non-negative references.
+func boxAxioms() []*Term {
+	var names []string
+	for n := range boxSorts {
+		names = append(names, n)
+	}
+	sort.Strings(names)
+	var out []*Term
+	for _, n := range names {
+		v := BoundVar("q_bx", boxSorts[n])
+		b := UF(n, "Int", v)
+		out = append(out, Forall([]*Term{v}, [][]*Term{{b}}, And(Eq(UF("un"+n, boxSorts[n], b), v), Ge(b, Int(0)))))
+	}
+	return out
 }
 
 func (x *Exec) unbox(val *Term, typ types.Type) *Term {
